@@ -30,7 +30,6 @@ func c11Roots(p *Prog) []string {
 func runC11(r *Report) {
 	p := r.P
 	r.Rule("errflow", 60, "no error produced on the merge/compaction/flush call graph is dropped, overwritten unchecked, or followed by a nil-error return on a path where it is non-nil")
-	r.Rule("flag-unreachable-on-failure", 3, "the success flag / installation of a compaction result is unreachable from the failure edge of the merge, and the goroutine bodies escalate a returned error")
 	var roots []*ssa.Function
 	for _, k := range c11Roots(p) {
 		if fn := r.NeedFunc("errflow", k); fn != nil {
